@@ -736,6 +736,34 @@ def text_parts(t):
             return [z for y in x[1] for z in rec(y)]
         if x[0] == "bin" and x[1] == "+":
             return rec(x[2]) + rec(x[3])
+        # "a%sb" % v  /  "a%sb%s" % (v, w): only plain %s placeholders
+        if x[0] == "bin" and x[1] == "%" and x[2][0] == "const" and \
+                isinstance(x[2][1], str):
+            fmt = x[2][1]
+            args = list(x[3][1]) if x[3][0] == "tuple" else [x[3]]
+            pieces = fmt.split("%s")
+            if len(pieces) == len(args) + 1 and "%" not in "".join(pieces):
+                out = []
+                for i, lit in enumerate(pieces):
+                    if lit:
+                        out.append(("const", lit))
+                    if i < len(args):
+                        out.extend(rec(args[i]))
+                return out
+        # "a{}b".format(v): only plain {} placeholders, positional
+        if x[0] == "mcall" and x[2] == "format" and x[1][0] == "const" and \
+                isinstance(x[1][1], str) and not x[4]:
+            fmt = x[1][1]
+            pieces = fmt.split("{}")
+            if len(pieces) == len(x[3]) + 1 and "{" not in "".join(pieces) \
+                    and "}" not in "".join(pieces):
+                out = []
+                for i, lit in enumerate(pieces):
+                    if lit:
+                        out.append(("const", lit))
+                    if i < len(x[3]):
+                        out.extend(rec(x[3][i]))
+                return out
         return [x]
     merged = []
     for x in rec(t):
@@ -1029,3 +1057,69 @@ def lin_with_lengths(t):
             one.terms = {k: a}
             out = out + one
     return out
+
+
+_PANDAS_FORMS = {"pandas.isna": "isna", "pandas.isnull": "isna",
+                 "pandas.notna": "notna", "pandas.notnull": "notna"}
+_PANDAS_METHODS = {"isnull": "isna", "notnull": "notna"}
+
+
+def method_forms(t):
+    """pd.isna(x) / pd.isnull(x) / x.isnull()  ->  x.isna()  (and the notna
+    family): one spelling for the same element-wise test."""
+    def f(x):
+        if x[0] == "call" and x[1] in _PANDAS_FORMS and len(x[2]) == 1 and \
+                not x[3]:
+            return ("mcall", x[2][0], _PANDAS_FORMS[x[1]], (), ())
+        if x[0] == "mcall" and x[2] in _PANDAS_METHODS and not x[3] and \
+                not x[4]:
+            return ("mcall", x[1], _PANDAS_METHODS[x[2]], (), ())
+        return x
+    return map_term(t, f)
+
+
+def expand_helpers(prog, t, names=None, _depth=0):
+    """Replace calls of small repository functions that consist of a single
+    ``return <expression>`` by that expression (parameters substituted by
+    the arguments): a call and its hand-inlined body become the same term.
+    ``names``: restrict to these qualified names."""
+    if _depth > 4:
+        return t
+    from .defuse import DefUse, Terms
+
+    def f(x):
+        if x[0] != "call" or x[1] not in prog.funcs or (
+                names is not None and x[1] not in names):
+            return x
+        g = prog.funcs[x[1]]
+        import ast as _ast
+        if isinstance(g.node, _ast.Lambda):
+            return x
+        body = [s_ for s_ in g.node.body if not (
+            isinstance(s_, _ast.Expr) and isinstance(
+                s_.value, _ast.Constant))]
+        if len(body) != 1 or not isinstance(body[0], _ast.Return) or \
+                body[0].value is None:
+            return x
+        b = bound_args(prog, x)
+        if b is None:
+            return x
+        ps = [p_ for p_ in g.params if not p_.startswith("*")]
+        if any(p_ not in b for p_ in ps if p_ not in g.defaults()):
+            return x
+        rt = Terms(DefUse(prog, g)).returns()
+        if len(rt) != 1:
+            return x
+        mapping = {}
+        for p_ in ps:
+            if p_ in b:
+                mapping[p_] = b[p_]
+            else:
+                d = g.defaults()[p_]
+                if isinstance(d, _ast.Constant):
+                    mapping[p_] = ("const", d.value)
+                else:
+                    return x
+        return expand_helpers(prog, subst_params(rt[0][1], mapping), names,
+                              _depth + 1)
+    return map_term(t, f)
